@@ -50,9 +50,13 @@ type Case struct {
 }
 
 // R makes a receive case for Select.
+//
+//go:noinline
 func R(c interface{}) Case { return Case{ch: reflect.ValueOf(c)} }
 
 // S makes a send case for Select.
+//
+//go:noinline
 func S(c interface{}) Case { return Case{ch: reflect.ValueOf(c), send: true} }
 
 type op struct {
@@ -757,6 +761,8 @@ func (s *Sim) Shutdown() error {
 // ---- operations used by instrumented code and by harness actors ----
 
 // Yield is a pure decision point.
+//
+//go:noinline
 func Yield(site string) {
 	s := cur
 	if s == nil {
@@ -766,6 +772,8 @@ func Yield(site string) {
 }
 
 // Wait parks the calling goroutine until pred is true.
+//
+//go:noinline
 func Wait(site string, pred func() bool) {
 	s := cur
 	if s == nil {
@@ -775,6 +783,8 @@ func Wait(site string, pred func() bool) {
 }
 
 // Sleep parks the calling goroutine for d of simulated time.
+//
+//go:noinline
 func Sleep(site string, d time.Duration) {
 	s := cur
 	if s == nil {
@@ -789,6 +799,8 @@ func Sleep(site string, d time.Duration) {
 // Go starts a simulated goroutine from instrumented code.  The real go
 // statement is executed by the parent (keeping its happens-before edge);
 // registration is done by the scheduler.
+//
+//go:noinline
 func Go(site string, f func()) {
 	s := cur
 	if s == nil {
@@ -810,6 +822,8 @@ func Go(site string, f func()) {
 
 // Select parks until one of the cases can proceed and returns the index of
 // the case the simulator chose, or -1 for default.
+//
+//go:noinline
 func Select(site string, hasDefault bool, cases ...Case) int {
 	s := cur
 	if s == nil {
@@ -822,6 +836,8 @@ func Select(site string, hasDefault bool, cases ...Case) int {
 // Did is called by instrumented code right after the native channel
 // operation of a select arm or a stand-alone operation.  It only matters to
 // the released partner of an unbuffered rendezvous, which parks here.
+//
+//go:noinline
 func Did() {
 	s := cur
 	if s == nil || atomic.LoadInt32(&s.rdvPending) == 0 {
@@ -830,59 +846,88 @@ func Did() {
 	s.did()
 }
 
-// Send waits until a send on c can proceed; the caller then performs it.
-func Send[T any](site string, c chan<- T, v T) {
+// The generic wrappers below are instantiated inside the package that uses
+// them (the instrumented copy of the code under test), so they must not
+// touch simulator state themselves: in a -race build their bodies are
+// race-instrumented as part of that package.  They only call non-generic,
+// non-inlinable helpers and perform the native channel operation.
+
+// SendPrep waits until a send on c can proceed; it returns false when no
+// simulation is active (the caller then just performs the operation).
+//
+//go:noinline
+func SendPrep(site string, c interface{}) bool {
 	s := cur
 	if s == nil {
-		c <- v
-		return
+		return false
 	}
 	if s.poisoned {
 		runtime.Goexit()
 	}
 	s.point(op{kind: opSelect, site: site, cases: []Case{S(c)}})
+	return true
+}
+
+// RecvPrep waits until a receive on c can proceed.
+//
+//go:noinline
+func RecvPrep(site string, c interface{}) bool {
+	s := cur
+	if s == nil {
+		return false
+	}
+	if s.poisoned {
+		runtime.Goexit()
+	}
+	s.point(op{kind: opSelect, site: site, cases: []Case{R(c)}})
+	return true
+}
+
+// ClosePost records that c was just closed and yields.
+//
+//go:noinline
+func ClosePost(site string, c interface{}) {
+	s := cur
+	if s != nil && !s.poisoned && s.running != nil {
+		s.point(op{kind: opClose, site: site, closing: reflect.ValueOf(c)})
+	}
+}
+
+// Send is the instrumented form of c <- v.
+func Send[T any](site string, c chan<- T, v T) {
+	if SendPrep(site, c) {
+		c <- v
+		Did()
+		return
+	}
 	c <- v
-	Did()
 }
 
 // Recv is the instrumented form of <-c.
 func Recv[T any](site string, c <-chan T) T {
-	s := cur
-	if s == nil {
-		return <-c
+	if RecvPrep(site, c) {
+		v := <-c
+		Did()
+		return v
 	}
-	if s.poisoned {
-		runtime.Goexit()
-	}
-	s.point(op{kind: opSelect, site: site, cases: []Case{R(c)}})
-	v := <-c
-	Did()
-	return v
+	return <-c
 }
 
 // Recv2 is the instrumented form of v, ok := <-c.
 func Recv2[T any](site string, c <-chan T) (T, bool) {
-	s := cur
-	if s == nil {
+	if RecvPrep(site, c) {
 		v, ok := <-c
+		Did()
 		return v, ok
 	}
-	if s.poisoned {
-		runtime.Goexit()
-	}
-	s.point(op{kind: opSelect, site: site, cases: []Case{R(c)}})
 	v, ok := <-c
-	Did()
 	return v, ok
 }
 
 // Close is the instrumented form of close(c).
 func Close[T any](site string, c chan<- T) {
 	close(c)
-	s := cur
-	if s != nil && !s.poisoned && s.running != nil {
-		s.point(op{kind: opClose, site: site, closing: reflect.ValueOf(c)})
-	}
+	ClosePost(site, c)
 }
 
 // MapOrder returns the keys of m in an order chosen by the simulator
@@ -897,38 +942,51 @@ func MapOrder[K comparable, V any](site string, m map[K]V) []K {
 	} else {
 		sortKeys(keys)
 	}
-	s := cur
-	if s != nil && !s.poisoned && len(keys) > 1 && s.ch != nil {
-		switch s.ch.MapMode {
-		case 1:
-			for i, j := 0, len(keys)-1; i < j; i, j = i+1, j-1 {
-				keys[i], keys[j] = keys[j], keys[i]
-			}
-		case 2, 3:
-			if ks, ok := any(keys).([]string); ok {
-				longest := s.ch.MapMode == 3
-				sort.SliceStable(ks, func(i, j int) bool {
-					if longest {
-						return len(ks[i]) > len(ks[j])
-					}
-					return len(ks[i]) < len(ks[j])
-				})
-			}
-		case 4:
-			x := s.ch.MapSeed | 1
-			for _, c := range site {
-				x = x*6364136223846793005 + uint64(c)
-			}
-			for i := len(keys) - 1; i > 0; i-- {
-				x ^= x << 13
-				x ^= x >> 7
-				x ^= x << 17
-				j := int(x % uint64(i+1))
-				keys[i], keys[j] = keys[j], keys[i]
-			}
+	if len(keys) < 2 {
+		return keys
+	}
+	mode, seed := mapMode(site)
+	switch mode {
+	case 1:
+		for i, j := 0, len(keys)-1; i < j; i, j = i+1, j-1 {
+			keys[i], keys[j] = keys[j], keys[i]
+		}
+	case 2, 3:
+		if ks, ok := any(keys).([]string); ok {
+			longest := mode == 3
+			sort.SliceStable(ks, func(i, j int) bool {
+				if longest {
+					return len(ks[i]) > len(ks[j])
+				}
+				return len(ks[i]) < len(ks[j])
+			})
+		}
+	case 4:
+		x := seed
+		for i := len(keys) - 1; i > 0; i-- {
+			x ^= x << 13
+			x ^= x >> 7
+			x ^= x << 17
+			j := int(x % uint64(i+1))
+			keys[i], keys[j] = keys[j], keys[i]
 		}
 	}
 	return keys
+}
+
+// mapMode returns the iteration-order mode of the active simulation.
+//
+//go:noinline
+func mapMode(site string) (int, uint64) {
+	s := cur
+	if s == nil || s.poisoned || s.ch == nil {
+		return 0, 0
+	}
+	x := s.ch.MapSeed | 1
+	for _, c := range site {
+		x = x*6364136223846793005 + uint64(c)
+	}
+	return s.ch.MapMode, x
 }
 
 func sortKeys[K comparable](keys []K) {
@@ -964,7 +1022,14 @@ func sortKeys[K comparable](keys []K) {
 // iterated tens of times per run and are the same from run to run).
 var sortCache = map[[2]uint64][]string{}
 
+//go:noinline
 func sortStringsCached(ks []string) {
+	if RaceBuild {
+		// the cache is a global map: keep it out of -race builds, where
+		// map operations are visible to the detector from any caller
+		sort.Strings(ks)
+		return
+	}
 	var a, b uint64
 	for _, k := range ks {
 		h1, h2 := uint64(14695981039346656037), uint64(0x9e3779b97f4a7c15)
